@@ -98,7 +98,7 @@ class Closure:
 
 class Frame:
     __slots__ = ('info', 'locals', 'enclosing', 'gen', 'first_arg', 'defcls', 'loop_counter', 'call_counter',
-                 'reduce_counter', 'reduce_site')
+                 'reduce_counter', 'reduce_site', 'join_counter', 'model_site', 'loop_index', 'map_counter')
 
     def __init__(self, info, locals_, enclosing, first_arg=None, defcls=None):
         self.info = info
@@ -111,6 +111,17 @@ class Frame:
         self.call_counter = 0
         self.reduce_counter = 0
         self.reduce_site = None
+        self.join_counter = 0
+        self.model_site = None
+        self.loop_index = {}
+        self.map_counter = 0
+
+
+class PartialObj:
+    """functools.partial of an interpreted callable / with symbolic arguments"""
+
+    def __init__(self, func, args, keywords):
+        self.func, self.args, self.keywords = func, tuple(args), dict(keywords)
 
 
 class SuperProxy:
@@ -430,7 +441,7 @@ class Interp:
             return models.call_sym_method(self, f.recv, f.name, list(args), kwargs)
         if isinstance(f, Closure):
             return self.run_function(f.info, f.enclosing, f.defaults, f.kwdefaults, args, kwargs, f.defcls_hint)
-        if isinstance(f, functools.partial):
+        if isinstance(f, (functools.partial, PartialObj)):
             kw = dict(f.keywords)
             kw.update(kwargs)
             return self.call(f.func, list(f.args) + list(args), kw)
@@ -465,14 +476,20 @@ class Interp:
             # a contract stated in ANOTHER sidecar module speaks about arguments of its own shapes only:
             # for arguments of other shapes it says nothing and the real body is interpreted instead
             cur = getattr(self.reg, 'current_module', None)
-            policy = getattr(cur, 'foreign_contracts', 'apply')
-            if getattr(c, 'module', None) is cur or policy == 'apply' or \
+            policy = getattr(cur, 'foreign_contracts', 'imports')
+            owner_mod = getattr(c, 'module', None)
+            if owner_mod is cur or cur is None or policy == 'apply' or \
+                    (policy == 'imports' and getattr(owner_mod, 'prop', None) in getattr(cur, 'uses', ())) or \
+                    (policy == 'imports' and getattr(owner_mod, 'prop', None) == getattr(cur, 'prop', None)) or \
                     (policy == 'fit' and self.reg.args_fit_contract(self, c, func, args, kwargs)):
                 return self.reg.apply_contract(self, c, func, args, kwargs)
         m = self.reg.model_for(func)
         if m is not None:
             self.st.used_models.add(_qn(func))
             return m(self, args, kwargs)
+        if getattr(func, '_pv_recursive', False):
+            from . import models
+            return models.call_recursive_spec(self, func, args, kwargs)
         code = func.__code__
         if is_interpretable_file(code.co_filename):
             return self.call_real_function(func, args, kwargs, defcls)
@@ -530,6 +547,18 @@ class Interp:
         if m is not None:
             self.st.used_models.add(_qn(cls))
             return m(self, args, kwargs)
+        if issubclass(cls, enum.Enum) and len(args) == 1 and not kwargs and isinstance(args[0], SChoice):
+            # Enum(value) for one of finitely many values: the member per alternative
+            members = []
+            for alt in args[0].alts:
+                try:
+                    members.append(cls(alt))
+                except ValueError:
+                    members = None
+                    break
+            if members is not None:
+                return SChoice(args[0].idx, members)
+            args = [self.resolve(args[0])]
         if issubclass(cls, enum.Enum) or not _is_repo_class(cls):
             if issubclass(cls, BaseException) and not _is_repo_class(cls):
                 try:
@@ -576,6 +605,10 @@ class Interp:
                 fn = obj.src_fn if name == 'src' else obj.pos_fn
                 return EngineFn(lambda k, fn=fn: wrap(fn(to_z3(k))))
         if isinstance(obj, Sym):
+            if isinstance(obj, SChoice) and all(isinstance(a, enum.Enum) for a in obj.alts) \
+                    and name in ('name', 'value', '_name_', '_value_'):
+                # plain data attribute of one of finitely many enum members: no case split needed
+                return SChoice(obj.idx, [getattr(a, name) for a in obj.alts])
             if isinstance(obj, (SOpt, SChoice)):
                 return self.getattr(self.resolve(obj), name)
             return SymMethod(obj, name)
@@ -587,7 +620,7 @@ class Interp:
                 return wrap(to_z3(obj.pos)) if not isinstance(obj.pos, int) else obj.pos
             if name == 'xs':
                 return obj.xs
-        if isinstance(obj, (_models.SMap, _models.SIter)):
+        if isinstance(obj, (_models.SMap, _models.SIter, _models.SMapProxy)):
             return SymMethod(obj, name)
 
         if isinstance(obj, SuperProxy):
@@ -736,6 +769,9 @@ class Interp:
             return self.truth(self.resolve(v))
         if isinstance(v, SList):
             return wrap(v.length > 0)
+        from . import models as _m
+        if isinstance(v, _m.SMap):
+            return wrap(z3.Not(v.has == z3.K(v.ksort, z3.BoolVal(False))))
         if isinstance(v, (int, str, list, tuple, dict, set, frozenset, float, bytes)):
             return bool(v)
         if isinstance(v, Opaque):
@@ -764,10 +800,24 @@ class Interp:
             a = self.resolve(a)
         if isinstance(b, (SOpt, SChoice)):
             b = self.resolve(b)
+        if isinstance(a, Opaque) or isinstance(b, Opaque):
+            # operator on an object known through an interface: the interface's __op__ / __rop__ method
+            r = self._opaque_binop(opcls, a, b)
+            if r is not NotImplemented:
+                return r
         if isinstance(a, SBool):
             a = SInt(z3.If(a.t, 1, 0))
         if isinstance(b, SBool):
             b = SInt(z3.If(b.t, 1, 0))
+        if isinstance(a, Opaque) or isinstance(b, Opaque):
+            # an operator of an opaque object: the interface's method, when it describes one
+            dunder = {ast.Add: 'add', ast.Sub: 'sub', ast.Mult: 'mul', ast.Mod: 'mod', ast.Div: 'truediv',
+                      ast.FloorDiv: 'floordiv', ast.BitOr: 'or', ast.BitAnd: 'and'}.get(opcls)
+            if dunder and isinstance(a, Opaque) and self.reg.opaque_has(self, a, '__%s__' % dunder):
+                return self.reg.call_opaque(self, a, '__%s__' % dunder, [b], {})
+            if dunder and isinstance(b, Opaque) and self.reg.opaque_has(self, b, '__r%s__' % dunder):
+                return self.reg.call_opaque(self, b, '__r%s__' % dunder, [a], {})
+            raise Unsupported('binary operator on opaque object')
         sa, sb = isinstance(a, Sym), isinstance(b, Sym)
         if (sa or sb) and not (isinstance(a, Opaque) or isinstance(b, Opaque)):
             # a user-defined operator of a repository / model class with a symbolic operand (p / name)
@@ -775,14 +825,6 @@ class Interp:
             if r is not NotImplemented:
                 return r
         if not sa and not sb:
-            if isinstance(a, Opaque) or isinstance(b, Opaque):
-                # operators of opaque objects are methods of their interface (__truediv__, __add__, ...)
-                dn = _DUNDER.get(opcls)
-                if dn is not None and isinstance(a, Opaque) and self.reg.opaque_has(self, a, dn[0]):
-                    return self.reg.call_opaque(self, a, dn[0], [b], {})
-                if dn is not None and isinstance(b, Opaque) and self.reg.opaque_has(self, b, dn[1]):
-                    return self.reg.call_opaque(self, b, dn[1], [a], {})
-                raise Unsupported('binary operator on opaque object')
             if opcls is ast.Mod and isinstance(a, str) and contains_sym(b):
                 return SStr(self.st.fresh_str('fmt'))
             if opcls is ast.Add and isinstance(a, (list, tuple)) and type(a) is type(b):
@@ -825,6 +867,20 @@ class Interp:
             raise PyRaise(TypeError('unsupported operand types for +'))
         raise Unsupported('binary operator %s on %r, %r' % (opcls.__name__, type(a).__name__, type(b).__name__))
 
+    _OPAQUE_DUNDER = {ast.Add: 'add', ast.Sub: 'sub', ast.Mult: 'mul', ast.Div: 'truediv', ast.FloorDiv: 'floordiv',
+                      ast.Mod: 'mod', ast.BitOr: 'or', ast.BitAnd: 'and', ast.BitXor: 'xor', ast.Pow: 'pow',
+                      ast.LShift: 'lshift', ast.RShift: 'rshift', ast.MatMult: 'matmul'}
+
+    def _opaque_binop(self, opcls, a, b):
+        nm = self._OPAQUE_DUNDER.get(opcls)
+        if nm is None:
+            return NotImplemented
+        if isinstance(a, Opaque) and self.reg.opaque_has(self, a, '__%s__' % nm):
+            return self.reg.call_opaque(self, a, '__%s__' % nm, [b], {})
+        if isinstance(b, Opaque) and self.reg.opaque_has(self, b, '__r%s__' % nm):
+            return self.reg.call_opaque(self, b, '__r%s__' % nm, [a], {})
+        return NotImplemented
+
     def _user_binop(self, opcls, a, b):
         names = _DUNDER.get(opcls)
         if names is None:
@@ -857,7 +913,21 @@ class Interp:
                             if all(isinstance(self.eq(alt, b), bool) for alt in a.alts) else self._eq_resolved(a, b))
             if isinstance(b, SChoice) and not isinstance(a, Sym):
                 return self.eq(b, a)
+            if isinstance(a, SChoice) and isinstance(b, SChoice) and \
+                    all(isinstance(x, enum.Enum) for x in a.alts + b.alts):
+                hits = [z3.And(a.idx == i, b.idx == k) for i, x in enumerate(a.alts)
+                        for k, y in enumerate(b.alts) if x == y]
+                return wrap(z3.Or(*hits)) if hits else False
             return self._eq_resolved(a, b)
+        from . import models as _m
+        if isinstance(a, _m.SMapProxy):
+            a = a.m
+        if isinstance(b, _m.SMapProxy):
+            b = b.m
+        if isinstance(a, _m.SMap):
+            return a.eq(self, b)
+        if isinstance(b, _m.SMap):
+            return b.eq(self, a)
         sa, sb = isinstance(a, Sym), isinstance(b, Sym)
         if sa or sb:
             if isinstance(a, SList) or isinstance(b, SList):
@@ -887,7 +957,7 @@ class Interp:
                 r = self.reg.opaque_eq(self, a, b)
                 if r is not NotImplemented:
                     return r
-            return a is b
+            return self.is_(a, b)
         if not isinstance(a, (int, str, float, bytes, type(None), tuple, list, dict, set, frozenset, enum.Enum, type)):
             m = _static_lookup(type(a), '__eq__')
             if m is not None and isinstance(m[0], types.FunctionType) and _is_repo_function(m[0]):
@@ -938,6 +1008,9 @@ class Interp:
             if a is None or b is None or ka != kb:
                 raise PyRaise(TypeError('ordering comparison not supported between these types'))
             raise Unsupported('ordering comparison on %s' % ka)
+        if isinstance(a, Opaque) and isinstance(b, Opaque) and getattr(a._pv_iface, 'sort_key', None) \
+                and getattr(b._pv_iface, 'sort_key', None):
+            return self.compare(opcls, self.getattr(a, a._pv_iface.sort_key), self.getattr(b, b._pv_iface.sort_key))
         if isinstance(a, Opaque) or isinstance(b, Opaque):
             raise Unsupported('ordering on opaque')
         try:
@@ -978,6 +1051,17 @@ class Interp:
             if _kind(a) != _kind(b):
                 return False
             raise Unsupported("'is' on symbolic int/str")
+        if isinstance(a, Opaque) and isinstance(b, Opaque) and a is not b:
+            from .api import same_object
+            r = same_object(a, b)
+            if r is not None:
+                return r
+        if a is not b and isinstance(a, Opaque) and isinstance(b, Opaque) and a._pv_uid == b._pv_uid \
+                and a._pv_index and len(a._pv_index) == len(b._pv_index) \
+                and all(x.sort() == y.sort() for x, y in zip(a._pv_index, b._pv_index)):
+            # two views of the elements of one symbolic family (list elements, results of a pure method):
+            # the same object iff the indices are equal (distinct indices: distinct objects, DESIGN 2.5)
+            return wrap(z3.And(*[x == y for x, y in zip(a._pv_index, b._pv_index)]))
         return a is b
 
     def not_(self, v):
@@ -996,6 +1080,11 @@ class Interp:
         if isinstance(container, SList):
             from . import models
             return models.slist_contains(self, container, x)
+        from . import models as _m
+        if isinstance(container, _m.SMap):
+            return container.contains(self, x)
+        if isinstance(container, (_m.SMapKeys, _m.SMapProxy)):
+            return container.m.contains(self, x)
         if isinstance(container, (list, tuple, set, frozenset)) or isinstance(container, (dict,)) or \
                 type(container).__name__ in ('dict_keys', 'dict_values', 'mappingproxy'):
             if not contains_sym(x, 0) and not contains_sym(container, 1) and not isinstance(x, (tuple, list)):
@@ -1225,8 +1314,24 @@ class Interp:
                 if isinstance(kk, SChoice):
                     kk = self.resolve(kk)
                 if contains_sym(kk, 0):
-                    raise Unsupported('dict display with symbolic key')
-                d[kk] = self.eval(v, frame)
+                    # a symbolic key: the dict becomes a symbolic map (values not tracked)
+                    from . import models
+                    if not isinstance(d, models.SMap):
+                        from .api import Str as _StrTy, Int as _IntTy
+                        kv = models.SMap._key_value(self, kk)
+                        if isinstance(kv, (SStr, str)):
+                            kty = _StrTy
+                        elif isinstance(kv, (SInt, int)) and not isinstance(kv, bool):
+                            kty = _IntTy
+                        else:
+                            raise Unsupported('dict display with symbolic key %r' % (kk,))
+                        d = models.smap_of_dict(self, kty, None, d)
+                    d.setitem(self, kk, self.eval(v, frame))
+                    continue
+                if isinstance(d, dict):
+                    d[kk] = self.eval(v, frame)
+                else:
+                    d.setitem(self, kk, self.eval(v, frame))
         return d
 
     def e_Subscript(self, node, frame):
@@ -1247,10 +1352,12 @@ class Interp:
             obj = self.resolve(obj)
         if isinstance(idx, (SOpt, SChoice)):
             idx = self.resolve(idx)
-        if isinstance(obj, (SStr, SList)) or (isinstance(obj, str) and _slice_sym(idx)):
+        if isinstance(obj, (SStr, SList, models.SMap, models.SMapProxy)) or (isinstance(obj, str) and _slice_sym(idx)):
             return models.sym_getitem(self, obj, idx)
         if isinstance(obj, Opaque):
             return self.reg.call_opaque(self, obj, '__getitem__', [idx], {})
+        if isinstance(obj, models.SMap):
+            return obj.getitem(self, idx)
         if isinstance(obj, (list, tuple)) and isinstance(idx, SInt):
             # case split over the concrete positions
             n = len(obj)
@@ -1601,7 +1708,8 @@ class Interp:
                 return seqs.copy(seqs.concat(self, list(cur), val))
             cur.extend(list(self.iterate(val)))
             return cur
-        if opcls is ast.Add and isinstance(cur, SList) and not cur.immutable:
+        if opcls is ast.Add and isinstance(cur, SList):
+            # list += iterable mutates in place (grow-only also for plain symbolic sequences)
             if isinstance(val, (SOpt, SChoice)):
                 val = self.resolve(val)
             from . import seqs
